@@ -127,8 +127,13 @@ def run_logql(ck, n_quick=1500, n_thorough=40000, shard=4000):
 
 # ---------------------------------------------------------------------- metric queries (C08)
 def ml_mcase(c):
-    return "(%d, %s, %s, %s, %d)" % (c["id"], c["script_ml"], "true" if c["ctx"]["finalize"] else "false", c["ctx_ml"],
-                                    max(1, len(c.get("sql") or [])))
+    # script_ml = the script as written; script1_ml = the script handed to the planners when the reader's entry point rewrote it.
+    # last component: None = the script has a breakpoint (not handed over whole), Some None = handed over as written,
+    # Some (Some s0) = rewritten, s0 as written
+    planned = c.get("script1_ml") or c["script_ml"]
+    s0 = "None" if c.get("bp") else ("Some (Some (%s))" % c["script_ml"] if c.get("script1_ml") else "Some None")
+    return "(%d, %s, %s, %s, %d, %s)" % (c["id"], planned, "true" if c["ctx"]["finalize"] else "false", c["ctx_ml"],
+                                        max(1, len(c.get("sql") or [])), s0)
 
 
 def eval_ocaml_metric(ck, name, cases):
@@ -146,7 +151,7 @@ def eval_ocaml_metric(ck, name, cases):
         if len(parts) < 2:
             continue
         # (analyze_m15, m15_representable, number of label-filter stages) computed by the model on the dumped AST
-        short[int(parts[0])] = (parts[1][0] == "1", parts[1][1] == "1", int(parts[1][2:]))
+        short[int(parts[0])] = (parts[1][0] == "1", parts[1][1] == "1", int(parts[1][2:-1]), parts[1][-1])
         res[int(parts[0])] = [None if p == "-" else bytes.fromhex(p) for p in parts[2:]]
     return res, short, out
 
@@ -179,7 +184,7 @@ def compare_metric(ck, cases, name="logqlm", shard=4000):
         for c in part:
             got = res.get(c["id"])
             want = observed(c)
-            c["m15"], c["m15_spec"], c["n_label_filters"] = short.get(c["id"], (None, None, None))
+            c["m15"], c["m15_spec"], c["n_label_filters"], c["norm_ok"] = short.get(c["id"], (None, None, None, None))
             if got != want:
                 d = ""
                 for a, b in zip(got or [None], want):
